@@ -162,7 +162,7 @@ def api_leg(ctx):
     from unittest import mock
     from vncdotool import api
     r = ctx.rng
-    with mock.patch.object(api, "reactor", _Rx()):
+    with use_reactor(_Rx()):
         for i in range(ctx.n(6, 40)):
             pw = "".join(chr(r.randrange(33, 127)) for _ in range(r.randint(1, 9)))
             first = api.connect("host%d" % i, password=pw, username=r.choice([None, "user"]))
@@ -206,7 +206,7 @@ def cli_no_tty_leg(ctx):
         def fail(prompt="", exc=exc):
             raise exc("no terminal")
         c, trace, zlog = new_client("cli")
-        with mock.patch.object(gp, "getpass", fail):
+        with hook("getpass", fail):
             stream = ver + (struct.pack("!I", 2) if ver.endswith(b"003\n") else bytes([1, 2])) + chal
             per = feed_impl(c, trace, [stream, struct.pack("!I", 0), server_init(4, 4, vclient.RGB32, b"x")])
         flat = [t for q in per for t in q]
